@@ -495,6 +495,11 @@ class TracedSolver(Solver):
 
     def _compute_step(self, controller, iterate, rho, dt, display, timer):
         rec = self.rec
+        # runaway guard (see _check_terminate): far more trial computations than the iteration limit allows
+        self._ntrials = getattr(self, "_ntrials", 0) + 1
+        lim = self.params.iteration_limit
+        if lim is not None and self._ntrials > lim + 40:
+            raise RunawayLoop("%d trial steps computed with iteration_limit=%d" % (self._ntrials, lim))
         lamb_used = 1.0 / dt
         rec.emit("TrialBegin", **{"from": rec.pid(iterate)}, rhoUsed=F("RHO", rho), dt=F("DT", dt),
                  lambUsed=F("LAMB", lamb_used), disp=bool(display))
@@ -770,6 +775,7 @@ class TracedSolver(Solver):
         rec.meta[self._run] = dict(problem=_unwrap(up), scaling=self.transform.scaling, params=self.params)
         self._pending_trial = False
         self._ntops = 0
+        self._ntrials = 0
         with self._patched():
             try:
                 result = super().solve(x0, y0)
